@@ -87,7 +87,7 @@ def pkg_name_of(dirpath):
     raise Infra('no package clause found in ' + dirpath)
 
 
-ALWAYS = [('internal__monotime', 'zz_verif_start.go'), ('root', 'zz_verif_tables.go')]
+ALWAYS = [('internal__monotime', 'zz_verif_start.go'), ('root', 'zz_verif_tables.go'), ('internal__protocol', 'zz_verif_vnrand.go')]
 
 
 def gen_overlay(bdir, sims):
